@@ -94,6 +94,54 @@ Theorem c06_model_passes_check :
     check_c06 (m, anc, a, b, reconcile m anc a b) = true.
 Proof. exact reconcile_check_c06. Qed.
 
+(* (4) What is REPORTED to the user is the slim form of each conflict
+   (conflict.go: Conflict.Slim, stored in the session state by the manager).
+   Slimming preserves well-formedness, the root and the change paths on each
+   endpoint - for ANY well-formed conflict: *)
+Theorem c06_slim_wf :
+  forall (a b : oentry) (c : conflict),
+    conflict_wf a b c ->
+    root (slim_conflict c) = root c
+    /\ map cpath (alpha_changes (slim_conflict c)) = map cpath (alpha_changes c)
+    /\ map cpath (beta_changes (slim_conflict c)) = map cpath (beta_changes c)
+    /\ conflict_wf a b (slim_conflict c).
+Proof. exact slim_reported_ok. Qed.
+
+(* ... hence every reported conflict of the plan names at least one change on
+   each endpoint and is rooted at the disagreement. *)
+Theorem c06_reported_conflicts_wf :
+  forall (m : mode) (anc a b : oentry),
+    wf true anc = true -> wf false a = true -> wf false b = true ->
+    phantom_free a = true -> phantom_free b = true ->
+    Forall2 (reported_ok a b) (conflicts (reconcile m anc a b))
+            (map slim_conflict (conflicts (reconcile m anc a b))).
+Proof. exact reconcile_reported. Qed.
+
+(* The checker applied to core.Reconcile's plan together with the Slim() of
+   each of its conflicts is sound for (1)-(4), and the model passes it. *)
+Theorem c06_check_reported_sound :
+  forall (m : mode) (anc a b : oentry) (pl : plan) (reported : list conflict),
+    check_c06_reported ((m, anc, a, b, pl), reported) = true ->
+    c06_prop a b pl /\ Forall2 (reported_ok a b) (conflicts pl) reported.
+Proof. exact check_c06_reported_sound. Qed.
+
+Theorem c06_model_passes_check_reported :
+  forall (m : mode) (anc a b : oentry),
+    wf true anc = true -> wf false a = true -> wf false b = true ->
+    phantom_free a = true -> phantom_free b = true ->
+    check_c06_reported ((m, anc, a, b, reconcile m anc a b),
+                        map slim_conflict (conflicts (reconcile m anc a b))) = true.
+Proof. exact reconcile_check_c06_reported. Qed.
+
+(* non-vacuity of (4): one-way-replica, alpha and ancestor absent where beta
+   holds a directory with an ignored socket - the alpha side of the conflict is
+   the synthetic nil-to-nil change, and the reported form keeps it *)
+Example c06_reported_example :
+  map slim_conflict (conflicts (reconcile OneWayReplica None ex_s_alpha ex_s_beta)) =
+  [mkc ["data"%string] [mk ["data"%string] None None]
+       [mk ["data"%string; "control.sock"%string] None (Some EUntracked)]].
+Proof. exact c06_reported_example. Qed.
+
 (* Non-vacuity: a triple that satisfies every hypothesis and yields a
    propagation (a: alpha modified), a conflict (b: both modified) and an
    ancestor change (c: both created the same file) at once. *)
@@ -119,3 +167,7 @@ Print Assumptions c06_anc_not_at_root.
 Print Assumptions c06_check_decides.
 Print Assumptions c06_check_sound.
 Print Assumptions c06_model_passes_check.
+Print Assumptions c06_slim_wf.
+Print Assumptions c06_reported_conflicts_wf.
+Print Assumptions c06_check_reported_sound.
+Print Assumptions c06_model_passes_check_reported.
